@@ -832,7 +832,7 @@ MANIFEST = {
             'child\'s own first frequency label, admissible widths and rejection, constant-drift signal within one channel, '
             'long-double reductions, independent sigma clip), plus orientation / resolution / start time / source name / '
             'copy-not-view of every derived frame, over stratified geometries, orientations, parent routes (synthetic, '
-            'float32, .fil / .h5 loaded, derived) and drift classes of either sign up to and beyond the frame\'s limit. '
+            'float32, .fil / .h5 loaded, derived, consolidated cadence) and drift classes of either sign up to and beyond the frame\'s limit. '
             'Held = no monitor fired on the executions produced; this is exploration, not proof.',
     'note': '; '.join(ASSUMPTIONS),
     'technique': 'runtime post-condition monitors with independent index-level reference models',
